@@ -124,6 +124,9 @@ def scan_assumptions(spec):
                 out.append('assumed higher-order contract (used by callers, not proved): %s iterates %s' % (tgt, c.extra.get('arg', '')))
             if c.extra.get('assumed'):
                 out.append('assumed clause (used by callers, not proved): %s %s' % (tgt, c.label or c.kind))
+            if c.kind == 'loop' and c.extra.get('what') in ('iteration', 'exit'):
+                out.append('step clause (proved per iteration / per exit edge; the statement about the whole loop follows by '
+                           'induction on the iteration count, a paper step): %s loop %s %s' % (tgt, c.extra.get('loop'), c.extra.get('what')))
             if c.kind in ('onlock', 'onrelease'):
                 out.append('assumed about the state other goroutines leave behind (table-interference mode, %s): %s %s -- the '
                            'representation invariant without its sequential parts and the immutability of table headers; every '
